@@ -572,11 +572,10 @@ theorem R_requestTail (crc crc32 : Bytes → Nat) (hcrc : ∀ x, crc x < 4294967
   by_cases h9 : v ≥ 9
   · have eTag := fun r l => run_of_R (R_emptyTags_flex r) l
     simp only [List.singleton_append] at eTag
-    have eTag0 := fun l => eTag [] l
     have eTxn := fun r l => run_of_R (R_compactNullableString c.txnId r h.txn) l
     have eN := fun r l => run_of_R (R_uvar (1 + ts.length) r (lenU_le5 _ (by have := h.nt; omega))) l
     simp [run2, Spec.C18.requestTail, restOf, Model.C18.requestAppendTo, Spec.C18.arrayLenP, h9, hv0, hv13', hv3',
-      Model.C18.compactArrayLen, Model.C18.uvarint, eKey, eVer, eCorr, eCid, eTag, eTag0, eTxn, eAcks, eTo, eN, eTopics, dReq]
+      Model.C18.compactArrayLen, Model.C18.uvarint, eKey, eVer, eCorr, eCid, eTag, eTxn, eAcks, eTo, eN, eTopics, dReq]
     rfl
   · have eTag := fun r l => run_of_R (R_emptyTags_nonflex r) l
     simp only [List.nil_append] at eTag
@@ -586,7 +585,7 @@ theorem R_requestTail (crc crc32 : Bytes → Nat) (hcrc : ∀ x, crc x < 4294967
     have eTopics0 := fun l => eTopics [] l
     simp only [List.append_nil] at eTopics0
     simp [run2, Spec.C18.requestTail, restOf, Model.C18.requestAppendTo, Spec.C18.arrayLenP, h9, hv0, hv13', hv3',
-      Model.C18.arrayLen, eKey, eVer, eCorr, eCid, eTag, eTxn, eAcks, eTo, eN, hn0, eTopics, eTopics0, dReq]
+      Model.C18.arrayLen, eKey, eVer, eCorr, eCid, eTag, eTxn, eAcks, eTo, eN, hn0, eTopics0, dReq]
     rfl
 
 /-- **Request round trip** (Produce v3–v13, no compressor): the reference decoder reads back from the frame
